@@ -99,7 +99,7 @@ PROPERTIES = {
         'technique': TECH,
     },
     'C06': {
-        'units': [ef.PadBunchProfiles, ef.WakePotential, ef.ElectricFieldScale, ef.ElectricFieldCtor, ef.ElectricFieldCtor11, ef.InitWakeLossFFT, io.ProgramOptionsGetters],
+        'units': [ef.PadBunchProfiles, ef.WakePotential, ef.ElectricFieldScale, ef.ElectricFieldCtor, ef.ElectricFieldCtor11, ef.InitWakeLossFFT, mainspec.MainFields, io.ProgramOptionsGetters],
         'native_sweep': {'harness': 'ef_replay', 'runs': ef.EF_RUNS + [['wake', 16, '1', 0, n_, 7] for n_ in (32, 33, 34, 50, 97, 128)] + [['fftw', 2, 64], ['fftw', 127, 129], ['fftw', 255, 257], ['fftw', 511, 513], ['fftw', 1023, 1025], ['fftw', 2048, 2048]]},
         'lemmas': [],
         'level': 'proof',
@@ -138,7 +138,7 @@ PROPERTIES = {
         'technique': TECH,
     },
     'C16': {
-        'units': Z_UNITS + [io.ProgramOptionsGetters],
+        'units': Z_UNITS + [io.ProgramOptionsGetters, mainspec.MainFields],
         'native_sweep': {'harness': 'ef_replay', 'runs': [['z', n_] for n_ in list(range(2, 40)) + [255, 256, 257, 1023, 1024]] + z.FACTORY_SWEEP + [['zfile']]},
         'lemmas': [],
         'level': 'other',
@@ -182,7 +182,7 @@ PROPERTIES = {
         'units': SM_KICK + SM_FP + [sm.IdentityApply, sm.KickMapApplyTo, sm.FokkerPlanckApplyTo,
                                     ps.RulerCtor, ps.SimpsonWeights, ps.UpdateXProjection, ps.UpdateYProjection, ps.Integrate, ps.Normalize, ps.Average, ps.Variance, ps.Swap, ps.MakePSFromTXTLoop, ps.PhaseSpaceCtor, ps.PhaseSpaceCtor8, ps.PhaseSpaceCtor12, ps.PhaseSpaceCopyCtor, ps.CreateFromProjections, ps.Gaus,
                                     ef.PadBunchProfiles, ef.WakePotential, ef.UpdateCSR, ef.ElectricFieldCtor, ef.ElectricFieldCtor11, ef.InitWakeLossFFT,
-                                    mainspec.MainConfig, mainspec.MainTrackingFile, mainspec.MainStartDistribution, mainspec.MainMaps, io.HDF5FileSources, io.HDF5AppendField, io.HDF5AppendTracks, io.ReadPhaseSpace, io.ProgramOptionsGetters] + Z_UNITS,
+                                    mainspec.MainConfig, mainspec.MainTrackingFile, mainspec.MainStartDistribution, mainspec.MainMaps, mainspec.MainFields, io.HDF5FileSources, io.HDF5AppendField, io.HDF5AppendTracks, io.ReadPhaseSpace, io.ProgramOptionsGetters] + Z_UNITS,
         'leaves': [leaf.UpperPow2Leaf, leaf.FPApplyToLeaf, leaf.KickApplyToLeaf, leaf.PSxLeaf, leaf.PSyLeaf],
         'lemmas': [],
         'level': 'other',
@@ -210,7 +210,7 @@ PROPERTIES = {
         'technique': TECH,
     },
     'C05': {
-        'units': [mainloop.MainLoop, mainspec.MainConfig, mainspec.MainUnits, mainspec.MainWiring, mainspec.MapDispatch, io.ProgramOptionsGetters, sm.WakePotentialMapUpdate, ef.ElectricFieldScale, sm.RFCalcKick, sm.DriftMapCtor, sm.FokkerPlanckCtor, ef.WakePotential, sm.UpdateSM, sm.KickMapApply],
+        'units': [mainloop.MainLoop, mainspec.MainConfig, mainspec.MainUnits, mainspec.MainFields, mainspec.MainWiring, mainspec.MapDispatch, io.ProgramOptionsGetters, sm.WakePotentialMapUpdate, ef.ElectricFieldScale, sm.RFCalcKick, sm.DriftMapCtor, sm.FokkerPlanckCtor, ef.WakePotential, sm.UpdateSM, sm.KickMapApply],
         'lemmas': [sm.lemmas_fp, sm.lemmas_c03],
         'level': 'other',
         'claim': 'the ingredients of the stationary (Haissinski) relation are proved on the code: within one step the wake potential is computed from the projection left by the previous step, then wake kick, RF kick, drift, '
